@@ -181,7 +181,7 @@ def draw_history(rng: random.Random, chain_in, chain_out, length, npoints=2):
 def tlc_instances(ck: Check, insts, tag, *, expect_ok=True, workers=1, **cfgkw):
     f = ck.work / f"c09-{tag}.json"
     f.write_text(json.dumps(insts))
-    r = ck.tlc("ChainRule", rule_cfg(**cfgkw), workers=workers, timeout=1500, env={"C09_INPUT": str(f)}, coverage=False,
+    r = ck.tlc("ChainRule", rule_cfg(**cfgkw), workers=workers, timeout=2700, env={"C09_INPUT": str(f)}, coverage=False,
                expect_ok=expect_ok)
     inst_lines, req_lines = {}, {}
     for v in r.printed():
